@@ -400,6 +400,11 @@ def check_lex_updates(rep, prog):
         for c in fn.walk():
             if c.k == 'CXXOperatorCallExpr' and c.op == '=' and len(c.c) == 3:
                 l_ = c.c[1].strip_all()
+                if l_.k == 'DeclRefExpr':
+                    # `Label &label_w = lex_dist_map[w]; ... label_w = std::move(c);` - the slot under a reference
+                    al_ = ex.alias_of(fn, l_)
+                    if al_ is not None and al_ is not l_:
+                        l_ = al_
                 if l_.k == 'CXXOperatorCallExpr' and l_.op == '[]' and len(l_.c) == 3 and ex.var_of(l_.c[1]) is not None and \
                         'property_map' in ((prog.base_type(l_.c[1].strip_all().j.get('t')) or {}).get('canon') or ''):
                     puts.append(_Store(c, l_.c[1], l_.c[2], c.c[2]))
@@ -704,6 +709,9 @@ def check_tree_construction(rep, prog):
                         g_ = pd.strip_all()
                         if g_.k == 'CallExpr' and g_.callee and g_.callee['g'] == 'boost::get' and len(g_.args()) == 2 and ex.var_of(g_.args()[1]) == vv:
                             return ex.f_atom('has_pred')
+                        # the predecessor table read directly: pred[index(v)]
+                        if g_.k == 'CXXOperatorCallExpr' and g_.op == '[]' and len(g_.c) == 3 and vertex_of_idx(g_.c[2]) == vv:
+                            return ex.f_atom('has_pred')
                 return None
             return atomize
         seen_kinds = set()
@@ -777,6 +785,8 @@ def check_tree_construction(rep, prog):
                     if pd is not None:
                         g_ = pd.strip_all()
                         if g_.k == 'CallExpr' and g_.callee and g_.callee['g'] == 'boost::get' and len(g_.args()) == 2 and ex.var_of(g_.args()[1]) == vv:
+                            okp = True
+                        if g_.k == 'CXXOperatorCallExpr' and g_.op == '[]' and len(g_.c) == 3 and vertex_of_idx(g_.c[2]) == vv:
                             okp = True
                 if not okp:
                     probs.append('the predecessor edge of the node is not the predecessor recorded for its own vertex')
